@@ -11,7 +11,9 @@ wrapper returns the fitness together with the call log of `f` (in call order).
 namespace Penalty
 
 /-- A Python value that is either a non-`Sequence` (a number, which the code wraps in
-`itertools.repeat`, constraint.py:44-45, 61-62, 128-129) or a `Sequence` of numbers. -/
+`itertools.repeat`, constraint.py:50-51, 67-68, 134-135) or a vector of numbers — what
+`_is_vector` (constraint.py:11-14, repair F24) accepts: any `Sequence` (tuple, list, range,
+array.array …) or an object with `ndim > 0` (numpy.ndarray). -/
 inductive SV (α : Type) where
   | scalar (c : α)
   | seq (v : List α)
@@ -40,7 +42,7 @@ end SV
 
 /-- Result of one call of a decorated evaluation function. -/
 structure Out (X A α : Type) where
-  /-- the returned fitness tuple; `none` = the `IndexError` of constraint.py:122-123 -/
+  /-- the returned fitness tuple; `none` = the `IndexError` of constraint.py:128-129 -/
   result : Option (List α)
   /-- the calls received by the undecorated evaluation function, in order: `(individual, extras)` -/
   calls : List (X × A)
@@ -55,53 +57,53 @@ section
 variable {α : Type} [LE α] [DecidableLE α] [OfNat α 0] [OfNat α 1] [Neg α] [Sub α] [Mul α]
 variable {X A : Type}
 
-/-- `1 if w >= 0 else -1` (constraint.py:56, 120): a zero weight counts as `+1`. -/
+/-- `1 if w >= 0 else -1` (constraint.py:62, 126): a zero weight counts as `+1`. -/
 def sgn (w : α) : α := if (0 : α) ≤ w then 1 else -1
 
 /-- `tuple(1 if w >= 0 else -1 for w in individual.fitness.weights)`. -/
 def signs (weights : List α) : List α := weights.map sgn
 
-/-- constraint.py:58-62: `dists = tuple(0 for w in weights)`, replaced by what the distance
+/-- constraint.py:64-68: `dists = tuple(0 for w in weights)`, replaced by what the distance
 function returns when there is one. -/
 def deltaDists (dist : Option (X → SV α)) (weights : List α) (x : X) : SV α :=
   match dist with
-  | none => .seq (weights.map fun _ => 0)                                  -- :58
-  | some d => d x                                                         -- :60-62
+  | none => .seq (weights.map fun _ => 0)                                  -- :64
+  | some d => d x                                                         -- :66-68
 
 /-- `DeltaPenalty(feasibility, delta, distance)(func)(individual, *args, **kwargs)`
-(constraint.py:42-65).  `weights x` is `individual.fitness.weights`. -/
+(constraint.py:48-71).  `weights x` is `individual.fitness.weights`. -/
 def deltaPenalty (feas : X → Bool) (delta : SV α) (dist : Option (X → SV α))
     (weights : X → List α) (f : X → A → List α) (x : X) (a : A) : Out X A α :=
-  if feas x then                                                          -- :53
-    ⟨some (f x a), [(x, a)]⟩                                              -- :54
+  if feas x then                                                          -- :59
+    ⟨some (f x a), [(x, a)]⟩                                              -- :60
   else
-    let ws := signs (weights x)                                           -- :56
-    let dists := deltaDists dist (weights x) x                            -- :58-62
-    ⟨some (zip3With (fun d w dist => d - w * dist)                        -- :63
+    let ws := signs (weights x)                                           -- :62
+    let dists := deltaDists dist (weights x) x                            -- :64-68
+    ⟨some (zip3With (fun d w dist => d - w * dist)                        -- :69
         (delta.upTo ws.length) ws (dists.upTo ws.length)), []⟩
 
-/-- constraint.py:125-129; the distance function receives `(f_ind, individual)` in this order. -/
+/-- constraint.py:131-135; the distance function receives `(f_ind, individual)` in this order. -/
 def closestDists (dist : Option (X → X → SV α)) (weights : List α) (fInd x : X) : SV α :=
   match dist with
-  | none => .seq (weights.map fun _ => 0)                                  -- :125
-  | some d => d fInd x                                                    -- :127-129
+  | none => .seq (weights.map fun _ => 0)                                  -- :131
+  | some d => d fInd x                                                    -- :133-135
 
 /-- `ClosestValidPenalty(feasibility, feasible, alpha, distance)(func)(individual, *args, **kwargs)`
-(constraint.py:103-135). -/
+(constraint.py:109-141). -/
 def closestValidPenalty (feas : X → Bool) (closest : X → X) (alpha : α)
     (dist : Option (X → X → SV α)) (weights : X → List α) (f : X → A → List α)
     (x : X) (a : A) : Out X A α :=
-  if feas x then                                                          -- :112
-    ⟨some (f x a), [(x, a)]⟩                                              -- :113
+  if feas x then                                                          -- :118
+    ⟨some (f x a), [(x, a)]⟩                                              -- :119
   else
-    let fInd := closest x                                                 -- :115
-    let fFbl := f fInd a                                                  -- :117
-    let ws := signs (weights x)                                           -- :120
-    if ws.length ≠ fFbl.length then                                       -- :122
-      ⟨none, [(fInd, a)]⟩                                                 -- :123
+    let fInd := closest x                                                 -- :121
+    let fFbl := f fInd a                                                  -- :123
+    let ws := signs (weights x)                                           -- :126
+    if ws.length ≠ fFbl.length then                                       -- :128
+      ⟨none, [(fInd, a)]⟩                                                 -- :129
     else
-      let dists := closestDists dist (weights x) fInd x                   -- :125-129
-      ⟨some (zip3With (fun f w d => f - w * alpha * d)                    -- :133
+      let dists := closestDists dist (weights x) fInd x                   -- :131-135
+      ⟨some (zip3With (fun f w d => f - w * alpha * d)                    -- :139
           fFbl ws (dists.upTo ws.length)), [(fInd, a)]⟩
 
 end
